@@ -8,10 +8,14 @@
 (* closed forms ("CF") exactly as hypergraphx/communities/hy_mmsbm/model.py *)
 (* states them (C, C', C'', quadratic-form shortcuts).  Rationals are      *)
 (* <<num, den>> with den > 0, normalised by the gcd.                       *)
-(* 32-bit bound (ASSUME-level, kept by the harness): entries 0..3, N <= 6, *)
-(* K <= 3  =>  every numerator below 2*10^6.                               *)
+(* The brute-force operators take the table  Lam : SUBSET (1..N) -> Nat    *)
+(* of Poisson parameters (LamTable) so that a caller evaluates it once.    *)
+(* 32-bit bound (kept by the harness): entries 0..3, N <= 6, K <= 3        *)
+(* => every numerator and denominator stays below 2*10^7.                  *)
 (***************************************************************************)
-EXTENDS Integers, Sequences, FiniteSets
+EXTENDS Integers, Sequences, FiniteSets, SequencesExt, TLC
+
+\* TLCEval(v) = v: it only makes TLC evaluate a function-valued LET definition once instead of at every application
 
 \* ---- exact rationals ------------------------------------------------------
 RECURSIVE Gcd(_, _)
@@ -24,10 +28,13 @@ RMul(a, b) == RNorm(<<a[1] * b[1], a[2] * b[2]>>)
 RInt(n)    == <<n, 1>>
 REq(a, b)  == a[1] * b[2] = b[1] * a[2]
 
-RECURSIVE ISum(_, _)
-ISum(F(_), S) == IF S = {} THEN 0 ELSE LET x == CHOOSE y \in S : TRUE IN F(x) + ISum(F, S \ {x})
-RECURSIVE RSum(_, _)
-RSum(F(_), S) == IF S = {} THEN <<0, 1>> ELSE LET x == CHOOSE y \in S : TRUE IN RAdd(F(x), RSum(F, S \ {x}))
+\* sums over finite sets (through an arbitrary enumeration of the set)
+RECURSIVE ISumN(_, _)
+ISumN(F(_), n) == IF n = 0 THEN 0 ELSE F(n) + ISumN(F, n - 1)
+RECURSIVE RSumN(_, _)
+RSumN(F(_), n) == IF n = 0 THEN <<0, 1>> ELSE RAdd(F(n), RSumN(F, n - 1))
+ISum(F(_), S) == LET q == SetToSeq(S)  G(k) == F(q[k]) IN ISumN(G, Len(q))
+RSum(F(_), S) == LET q == SetToSeq(S)  G(k) == F(q[k]) IN RSumN(G, Len(q))
 
 RECURSIVE Binom(_, _)
 Binom(n, k) == IF k < 0 \/ k > n THEN 0 ELSE IF k = 0 THEN 1 ELSE (Binom(n - 1, k - 1) * n) \div k
@@ -37,26 +44,27 @@ KK(W) == DOMAIN W
 Bf(x, y, W) == LET T(p) == x[p[1]] * W[p[1]][p[2]] * y[p[2]] IN ISum(T, KK(W) \X KK(W))    \* x^T W y
 Qf(x, W)    == Bf(x, x, W)
 Pairs(e)    == {p \in e \X e : p[1] < p[2]}
+Gram(U, W)  == [i \in DOMAIN U |-> [j \in DOMAIN U |-> Bf(U[i], U[j], W)]]                  \* u_i^T w u_j
 
 \* Poisson parameter of the hyperedge e (a set of nodes): sum over its node pairs of u_i^T w u_j
-Lambda(U, W, e) == LET T(p) == Bf(U[p[1]], U[p[2]], W) IN ISum(T, Pairs(e))
+LambdaG(G, e)   == LET T(p) == G[p[1]][p[2]] IN ISum(T, Pairs(e))
+Lambda(U, W, e) == LambdaG(Gram(U, W), e)
+LamTable(U, W)  == LET G == TLCEval(Gram(U, W)) IN [e \in SUBSET (DOMAIN U) |-> LambdaG(G, e)]
 \* normalisation kappa_d = C(N-2, d-2) d (d-1) / 2   ("binom+avg")
 Kappa(N, d) == Binom(N - 2, d - 2) * ((d * (d - 1)) \div 2)
 EdgesOfSize(N, d) == {e \in SUBSET (1..N) : Cardinality(e) = d}
 
 \* expected number of hyperedges of size d: sum over ALL hyperedges of that size of Lambda / kappa
-ExpCountBF(U, W, N, d) == LET L(e) == Lambda(U, W, e) IN RNorm(<<ISum(L, EdgesOfSize(N, d)), Kappa(N, d)>>)
-\* expected degree of node i, sizes in ds: sum over all hyperedges containing i
-ExpDegBF(U, W, N, ds, i) ==
-  LET L(e) == Lambda(U, W, e)
-      PerD(d) == RNorm(<<ISum(L, {e \in EdgesOfSize(N, d) : i \in e}), Kappa(N, d)>>)
-  IN RSum(PerD, ds)
-AvgDegBF(U, W, N, ds) == LET E(i) == ExpDegBF(U, W, N, ds, i) IN RMul(RSum(E, 1..N), <<1, N>>)
+ExpCountBF(Lam, N, d) == LET L(e) == Lam[e] IN RNorm(<<ISum(L, EdgesOfSize(N, d)), Kappa(N, d)>>)
+\* expected degree of node i for the sizes d: sum over all hyperedges of size d containing i
+ExpDegBF1(Lam, N, d, i) == LET L(e) == Lam[e] IN RNorm(<<ISum(L, {e \in EdgesOfSize(N, d) : i \in e}), Kappa(N, d)>>)
+ExpDegBF(Lam, N, ds, i) == LET P(d) == ExpDegBF1(Lam, N, d, i) IN RSum(P, ds)
+AvgDegBF(Lam, N, ds)    == LET E(i) == ExpDegBF(Lam, N, ds, i) IN RMul(RSum(E, 1..N), <<1, N>>)
 
 \* ---- the closed forms, as the code states them ----------------------------------
-USum(U, W) == [a \in KK(W) |-> LET T(i) == U[i][a] IN ISum(T, DOMAIN U)]
+USum(U, W)  == [a \in KK(W) |-> LET T(i) == U[i][a] IN ISum(T, DOMAIN U)]
 QfSum(U, W) == LET T(i) == Qf(U[i], W) IN ISum(T, DOMAIN U)                  \* qf_and_sum
-BfSum(U, W) == <<Qf(USum(U, W), W) - QfSum(U, W), 2>>                        \* bf_and_sum = 0.5 (qf(sum) - qf_and_sum)
+BfSum(U, W) == <<Qf(TLCEval(USum(U, W)), W) - QfSum(U, W), 2>>                        \* bf_and_sum = 0.5 (qf(sum) - qf_and_sum)
 CC(ds)         == LET T(d) == <<2, d * (d - 1)>> IN RSum(T, ds)               \* C:   sum 2 / (d (d-1))
 \* C': 2/(N-2) sum (d-2)/(d (d-1)); on two nodes there is no size >= 3 and the sum is empty (the code divides by N-2)
 CPrime(N, ds)  == LET T(d) == <<d - 2, d * (d - 1)>> IN IF N = 2 THEN <<0, 1>> ELSE RMul(<<2, N - 2>>, RSum(T, ds))
@@ -64,17 +72,17 @@ CSecond(N, ds) == LET T(d) == <<1, d - 1>> IN RMul(<<2, N>>, RSum(T, ds))     \*
 
 \* poisson_params: 0.5 (s_e^T w s_e - sum_{i in e} u_i^T w u_i)
 PoissonCF(U, W, e) ==
-  LET s == [a \in KK(W) |-> LET T(i) == U[i][a] IN ISum(T, e)]
+  LET s == TLCEval([a \in KK(W) |-> LET T(i) == U[i][a] IN ISum(T, e)])
       Q(i) == Qf(U[i], W)
   IN RNorm(<<Qf(s, W) - ISum(Q, e), 2>>)
 \* expected_degree(per_node=True): C * first + C' * second
 ExpDegCF(U, W, N, ds, i) ==
-  LET S == USum(U, W)
+  LET S == TLCEval(USum(U, W))
       first == Bf(U[i], S, W) - Qf(U[i], W)
-      rest == [a \in KK(W) |-> S[a] - U[i][a]]
+      rest == TLCEval([a \in KK(W) |-> S[a] - U[i][a]])
       second == <<Qf(rest, W) - QfSum(U, W) + Qf(U[i], W), 2>>
   IN RAdd(RMul(CC(ds), RInt(first)), RMul(CPrime(N, ds), second))
-AvgDegCF(U, W, N, ds) == RMul(CSecond(N, ds), BfSum(U, W))
+AvgDegCF(U, W, N, ds)  == RMul(CSecond(N, ds), BfSum(U, W))
 ExpCountCF(U, W, N, d) == RMul(CC({d}), BfSum(U, W))
 
 Symmetric(W) == \A a, b \in KK(W) : W[a][b] = W[b][a]
